@@ -129,8 +129,11 @@ def binFor (beg : Int) (end_ : Int) : BitVec 32 :=
   else
     (0#32)
 
-/-- `Record.Bin` -/
-def recordBin (r : Record) : Nat := (binFor r.pos (recordEnd r)).toNat
+/-- `Record.Bin`: `end := r.End(); if end == r.Pos { end++ }; BinFor(r.Pos, end)` — an alignment that consumes no
+reference counts as one base long (repair fdfa0ce) -/
+def recordBin (r : Record) : Nat :=
+  let e := recordEnd r
+  (binFor r.pos (if e = r.pos then e + 1 else e)).toNat
 
 /-! ### Writer -/
 
